@@ -66,8 +66,11 @@ def _reduce(t, var_of, env, need):
         return t
     n = var_of(t)
     if n is not None:
+        neg = False
+        if isinstance(n, tuple):        # (name, True): the tree is the negation of the boolean variable
+            n, neg = n
         if n in env:
-            return ("c", env[n], None, None)
+            return ("c", (1 - env[n]) if neg else env[n], None, None)
         need.append(n)
         return ("c", 0, None, None)
     k = t[0]
